@@ -420,11 +420,13 @@ def prim_unit(ctx):
         ('C: occa::parseFloat/parseDouble(std::string(c0, c - c0)) -> uninterpreted model that checks the range',
          r'\bocca::parse(Float|Double)\(std::string\(c0, c - c0\)\)', r'occa_parse\1(c0, c - c0)', 2),
         ('C: parseInt(std::string(c0, c - c0)) -> uninterpreted model that checks the range',
-         r'\bparseInt\(std::string\(c0, c - c0\)\)', 'occa_parseInt(c0, c - c0)', 1),
+         r'\bparseInt\(std::string\((\w+), (\w+) - \1\)(?: \+ "ull")?\)', r'occa_parseInt(\1, \2 - \1)', 1),
         ('C: p = (T) e -> p = primitive_of_T((T) e)  (converting constructor selected by the cast type)',
-         r'\bp = \((float|double|uint32_t|int32_t|uint64_t|int64_t)\) ([^;]+);', r'p = primitive_of_\1((\1) \2);', 6),
-        ('C: p.to<T>() -> primitive_to_T(p)', r'\bp\.to<(\w+)>\(\)', r'primitive_to_\1(p)', 4),
-        ('C: primitiveType::x -> primitiveType_x', r'\bprimitiveType::', 'primitiveType_', 2),
+         r'\bp = \((float|double|uint32_t|int32_t|uint64_t|int64_t)\) ([^;]+);', r'p = primitive_of_\1((\1) \2);', None),
+        ('C: scalar read of the parsed value -> uninterpreted value (values are not part of the cursor contract)',
+         r'\bvalue_ = p\.to<uint64_t>\(\);', 'value_ = nondet_uint64_t();', '*'),
+        ('C: p.to<T>() -> primitive_to_T(p)', r'\bp\.to<(\w+)>\(\)', r'primitive_to_\1(p)', '*'),
+        ('C: primitiveType::x -> primitiveType_x', r'\bprimitiveType::', 'primitiveType_', None),
         ('C: lex::skipWhitespace(c) -> lex_skipWhitespace(c_)  (reference argument)', r'\blex::skipWhitespace\(c\)', 'lex_skipWhitespace(c_)', 1),
         ('C: primitive::loadBinary/loadHex(++c, negative): reference argument -> (++c, c_)',
          r'\bprimitive::(loadBinary|loadHex)\(\+\+c, negative\)', r'primitive_\1((++c, c_), negative)', 2),
